@@ -2,6 +2,8 @@
 package props
 
 import (
+	"crypto/sha256"
+	"encoding/json"
 	"os"
 	"runtime/debug"
 	"strings"
@@ -25,6 +27,7 @@ type RunOut struct {
 	Inputs     int // property-specific count of evaluated inputs (mutants, resubmissions, ...)
 	SubEvals   int      // for batch properties: independent cases evaluated inside this run
 	SubFP      []string // fingerprints of the non-trivial cases inside this run
+	Digest     string   // hash of everything observable in the run (determinism self-test)
 }
 
 // Property is one registered check.
@@ -238,6 +241,7 @@ func (p *ClusterProp) Run(seed uint64, tier string, tr *core.Trace) (out *RunOut
 		out.Violations = append(out.Violations, vs...)
 	}
 	out.NonTrivial = or.NonTrivial(e)
+	out.Digest = runDigest(e, tr)
 	if ic, ok := or.(interface{ Inputs() int }); ok {
 		out.Inputs = ic.Inputs()
 	}
@@ -367,4 +371,28 @@ func diffNote(e *core.Engine, i int, a *core.BlockAttempt) string {
 		return ""
 	}
 	return DumpDiffNote(e, i)
+}
+
+// runDigest hashes the recorded trace and every replica's transcript (hashes, validator updates, tx
+// results, CheckTx codes, Info answers): two executions of the same seed must give the same digest.
+func runDigest(e *core.Engine, tr *core.Trace) string {
+	h := sha256.New()
+	b, _ := json.Marshal(tr.Steps)
+	h.Write(b)
+	for i, r := range e.C.Replicas {
+		fmt.Fprintf(h, "|r%d init=%s", i, r.Tr.InitVals)
+		for _, a := range r.Tr.Attempts {
+			fmt.Fprintf(h, "|h%d c=%v hs=%v %x %s", a.Height, a.Committed, a.Handshake, a.AppHash, a.ValUpdates)
+			for _, t := range a.Txs {
+				h.Write([]byte(t.Key()))
+			}
+		}
+		for _, c := range r.Tr.Checks {
+			fmt.Fprintf(h, "|ck%d:%d:%d", c.AtHeight, c.Code, c.GasUsed)
+		}
+		for _, in := range r.Tr.Infos {
+			fmt.Fprintf(h, "|in%d:%x", in.Height, in.AppHash)
+		}
+	}
+	return fmt.Sprintf("%x", h.Sum(nil)[:12])
 }
